@@ -7,7 +7,7 @@ from sim.util import derive_rng, pick, wpick
 
 LEVEL = 'exploration'
 BUDGET = {
-    'quick': dict(runs=220, wall=480, timeout=600, det=4, minimise=40),
+    'quick': dict(runs=160, wall=480, timeout=600, det=4, minimise=40),
     'thorough': dict(runs=3000, wall=3000, timeout=600, det=16, minimise=200),
 }
 RULE = ('Each run = one configuration drawn from EVERY constructor argument of '
@@ -125,7 +125,10 @@ def gen_tf(rng, tier):
 def generate(seed, idx, tier):
   rng = derive_rng(seed, 'C07', idx)
   s = wpick(rng, [('ds', 6), ('sm3', 1), ('tearfree', 3)])
-  return {'ds': gen_ds, 'sm3': gen_sm3, 'tearfree': gen_tf}[s](rng, tier)
+  plan = {'ds': gen_ds, 'sm3': gen_sm3, 'tearfree': gen_tf}[s](rng, tier)
+  if rng.random() < 0.2:
+    plan['lr'] = {'kind': 'optax_linear', 'v': 0.1, 'T': 16}
+  return plan
 
 
 def classify(e):
